@@ -126,6 +126,7 @@ PROPERTIES = {
         "parts": [
             part("C12.roundtrip", shards={"quick": 12, "thorough": 16}, floor=500),
             part("C12.fetch", target=("test", "network"), shards={"quick": 4, "thorough": 8}, floor=500),
+            part("C12.live", race=True, shards={"quick": 4, "thorough": 16}, floor=1, timeout={"quick": 900, "thorough": 7200}),
         ],
     },
     "C02": {
